@@ -378,6 +378,14 @@ Definition perm_on (h : heap) (i : nat) (perm : N) (u : user) : bool :=
 
 Definition win (v : view) : bool := ostype_eqb (v_os v) Windows.
 
+(* dirNode.stickyFor && !node.isOwner (the kernel's check_sticky): in a directory with the sticky bit only an
+   administrator, the owner of the directory or the owner of the entry removes or renames an entry *)
+Definition sticky_refuses (h : heap) (dirn victim : nat) (u : user) : bool :=
+  has (m_mode (meta_of h dirn)) MODE_STICKY
+  && negb (us_admin u)
+  && negb (Z.eqb (m_uid (meta_of h dirn)) (us_uid u))
+  && negb (Z.eqb (m_uid (meta_of h victim)) (us_uid u)).
+
 (* Mkdir, memfs.go:414 *)
 Definition mkdir (s : fsys) (v : view) (name : str) (perm : N) : fsys * res :=
   match name with
@@ -505,6 +513,7 @@ Definition remove (s : fsys) (v : view) (name : str) : fsys * res :=
         let h := f_heap s in
         if Nat.eqb parent c then (s, RFail EInvalidArgument)     (* the root directory *)
         else if negb (perm_on h parent OpenWrite (v_user v)) then (s, RFail EPermDenied)
+        else if sticky_refuses h parent c (v_user v) then (s, RFail EOpNotPermitted)
         else
           match get h c with
           | Some (NDir (_ :: _) _) => (s, RFail EDirNotEmpty)
@@ -577,6 +586,7 @@ Definition rename (s : fsys) (v : view) (oldpath newpath : str) : fsys * res :=
          | Some op, Some oc, Some np =>
              let h := f_heap s in
              if negb (perm_on h op OpenWrite (v_user v)) then (s, RFail EPermDenied)
+             else if negb (Nat.eqb oc op) && sticky_refuses h op oc (v_user v) then (s, RFail EOpNotPermitted)
              else if negb (Nat.eqb np op) && negb (perm_on h np OpenWrite (v_user v)) then (s, RFail EPermDenied)
              else
                let same := str_eqb (pi_path (sr_pi ro)) (pi_path (sr_pi rn))
@@ -604,7 +614,9 @@ Definition rename (s : fsys) (v : view) (oldpath newpath : str) : fsys * res :=
                    | None => move h
                    | Some nc =>
                        match get h nc with
-                       | Some (NFile _ _ _ _) | Some (NSym _ _) => move (delete_node h nc)
+                       | Some (NFile _ _ _ _) | Some (NSym _ _) =>
+                           if sticky_refuses h np nc (v_user v) then (s, RFail EOpNotPermitted)
+                           else move (delete_node h nc)
                        | _ => (s, RFail (if win v then EW_AccessDenied else EC_FileExists))
                        end
                    end
